@@ -18,6 +18,7 @@ from engine.symnum import LN, EXP, bool_term, explore, mk, real, var
 
 PID = "C18"
 X, X2, L = z3.Real("x"), z3.Real("x2"), z3.Real("l")
+LI = z3.Int("li")
 
 LOGS = {
     "bel": "measured.Bel", "decibel": "measured.Decibel", "neper": "measured.Neper",
@@ -83,7 +84,7 @@ for x in (0.001, 0.5, 1.0, 3.0, 1000.0, 12345.678):
     prev = lv.magnitude
     if not (lv == lv.quantify()) or not (lv.quantify() == lv):
         bad.append(('level != the quantity it denotes', x))
-for l in (-200, -3.5, 0, 1, 60, 200):
+for l in (-200, -3.5, 0, 1, 60, 200, 3, -7, 2, 0.0, 1.0):
     try:
         q = (l * LU).quantify()
         l2 = LU.level(q).magnitude
@@ -214,6 +215,25 @@ def worker(task: List[Tuple]) -> Dict[str, Any]:
                 m = p.result
                 ask(z3.And(p.cond, lnb != 0, e_is_e), absz(real(m.t) - L) <= symnum.q(Fraction(1, 2 ** 46)) * absz(L),
                     f"level-quantity-level#p{i}", "level-round-trip")
+
+            # ---- the same with a whole-number level written as an int ------------------------
+            def f_lrt_int() -> Any:
+                lv = mk("int", LI) * LU
+                q = lv.quantify()
+                return LU.level(q).magnitude
+
+            ex = explore(f_lrt_int, assumptions=[LI >= -200, LI <= 200], max_paths=32)
+            acc.explored(ex)
+            for i, p in enumerate(ex.paths):
+                if p.exc is not None:
+                    acc.ob("sat", f"{label}:int-level-round-trip#p{i}:raises", (label, "lrti", i))
+                    acc.out["viol"].append((f"C18:level-round-trip-raises:{lname}:{rc}:{qc}",
+                                            f"{p.outcome} in level->quantity for an int level of {label}", rp))
+                    continue
+                m = p.result
+                ask(z3.And(p.cond, lnb != 0, e_is_e),
+                    absz(real(symnum.term(m)) - z3.ToReal(LI)) <= symnum.q(Fraction(1, 2 ** 46)) * absz(z3.ToReal(LI)),
+                    f"int-level-quantity-level#p{i}", "level-round-trip")
             acc.sample({"config": label, "k": k_phys, "prefix": str(pv), "base": base})
     return acc.finish()
 
